@@ -221,7 +221,8 @@ func (c *LocalReusableWorkflowCache) FindMetadata(spec string) (*ReusableWorkflo
 	src, err := os.ReadFile(file)
 	if err != nil {
 		c.writeCache(spec, nil) // Remember the workflow file was not found
-		return nil, fmt.Errorf("could not read reusable workflow file for %q: %w", spec, err)
+		// The error message contains the file path made from the spec as it is. Keep the message in a single line
+		return nil, fmt.Errorf("could not read reusable workflow file for %q: %s", spec, singleLine(err.Error()))
 	}
 
 	m, err := parseReusableWorkflowMetadata(src)
